@@ -2,6 +2,7 @@ package props
 
 import (
 	"fmt"
+	"math"
 	"testing"
 
 	"github.com/DataDog/sketches-go/ddsketch"
@@ -307,3 +308,123 @@ func FuzzC08(f *testing.F) {
 }
 
 var _ = fmt.Sprintf
+
+// TestC08_LongVarfloats: encodings whose counts need long (up to 9-byte) varfloats - arbitrary non-dyadic
+// weights, one per index so that nothing is summed - with every cut point against the non-collapsing consumers.
+func TestC08_LongVarfloats(t *testing.T) {
+	rapid.Check(t, func(t *rapid.T) {
+		cl := newCase("C08")
+		spec, m := buildMapping(t, 1e-3, 0.3)
+		srcKind := rapid.SampledFrom([]string{"dense", "sparse"}).Draw(t, "srckind")
+		dom := newDomain(m)
+		n := rapid.IntRange(1, 12).Draw(t, "n")
+		base := rapid.IntRange(dom.minIdx+10, dom.maxIdx-80).Draw(t, "base")
+		if rapid.Bool().Draw(t, "near0") && dom.minIdx+10 < -40 && dom.maxIdx-80 > 40 {
+			base = rapid.IntRange(-40, 40).Draw(t, "base0")
+		}
+		idx := rapid.SliceOfNDistinct(rapid.IntRange(0, 60), n, n, rapid.ID[int]).Draw(t, "idx")
+		ps, ns := gen.StoreKind{Name: srcKind}.New(), gen.StoreKind{Name: srcKind}.New()
+		for _, i := range idx {
+			var w float64
+			switch rapid.IntRange(0, 3).Draw(t, "wclass") {
+			case 0:
+				w = rapid.SampledFrom([]float64{0.1, 0.3, 1.0 / 3, 2.7, 1e-3, 123.456, 1e15 + 0.5}).Draw(t, "wspecial")
+			case 1:
+				w = rapid.Float64Range(1e-6, 1e6).Draw(t, "w")
+			case 2:
+				w = math.Float64frombits(rapid.Uint64Range(0x3c00000000000000, 0x4400000000000000).Draw(t, "wbits"))
+			default:
+				w = float64(rapid.IntRange(1, 1000).Draw(t, "wint"))
+			}
+			if rapid.Bool().Draw(t, "neg") {
+				ns.AddWithCount(base+i, w)
+			} else {
+				ps.AddWithCount(base+i, w)
+			}
+		}
+		s := ddsketch.NewDDSketch(m, ps, ns)
+		if rapid.Bool().Draw(t, "zero") {
+			_ = s.AddWithCount(0, rapid.Float64Range(0.01, 100).Draw(t, "zerow"))
+		}
+		omit := rapid.Bool().Draw(t, "omit")
+		var enc []byte
+		s.Encode(&enc, omit)
+		cl.logf("C08 long varfloats %s src=%s omit=%v encoding=% x", spec, srcKind, omit, enc)
+		_, blocks, err := refdec.Parse(enc)
+		if err != nil {
+			t.Fatalf("C08: encoding does not parse: %v", err)
+		}
+		long := false
+		for _, b := range blocks {
+			for _, f := range b.Fields {
+				if f.Kind == "varfloat" && f.Len >= 8 {
+					long = true
+				}
+			}
+		}
+		cl.labelIf(long, "varfloat>=8-bytes")
+		cl.label("long-varfloats")
+		var nCuts, nInside int64
+		for cut := 0; cut < len(enc); cut++ {
+			boundary, blk, field, keep := refdec.ClassifyCut(blocks, cut)
+			pre := enc[:cut]
+			if !boundary && field != nil && field.Kind == "varfloat" && field.Len == 9 && keep == 8 {
+				cl.label("cut:8-of-9-varfloat-bytes")
+			}
+			nCuts++
+			for _, kind := range gen.NonCollapsing {
+				for _, supplied := range []bool{true, false} {
+					c := consumer{kind, "plain", supplied}
+					sk, _, _, err, pan := runConsumer(c, spec, m, pre, nil, false)
+					if pan != nil {
+						t.Fatalf("C08: decoding the encoding cut at %d/%d bytes with %+v panicked: %v\nencoding: % x", cut, len(enc), c, pan, enc)
+					}
+					if !boundary {
+						nInside++
+						if err == nil {
+							t.Fatalf("C08: the encoding cut at %d/%d bytes (strictly inside a %s block, field %v) was decoded by %+v without error\nencoding: % x", cut, len(enc), blk.Kind, field, c, enc)
+						}
+						continue
+					}
+					pc, _, _ := refdec.Parse(pre)
+					if !(supplied || len(pc.Mappings) > 0) {
+						if err == nil {
+							t.Fatalf("C08: prefix without mapping decoded without error by %+v", c)
+						}
+						continue
+					}
+					if err != nil {
+						t.Fatalf("C08: the encoding cut at %d/%d bytes, exactly between blocks, was refused by %+v: %v", cut, len(enc), c, err)
+					}
+					// one contribution per index: decoded weights must have exactly the bits the independent parser reads
+					for side, st := range storesOf(sk) {
+						want := pc.Bins(side == 1)
+						got := map[int64]float64{}
+						st.ForEach(func(i int, w float64) bool { got[int64(i)] += w; return false })
+						for i, w := range want {
+							if w == 0 {
+								continue
+							}
+							if g, ok := got[i]; !ok || !obs.FEq(g, w) {
+								t.Fatalf("C08: prefix of %d bytes decoded by %+v: side %d bin %d holds %v, complete blocks say %v", cut, c, side, i, g, w)
+							}
+							delete(got, i)
+						}
+						for i, g := range got {
+							if g != 0 {
+								t.Fatalf("C08: prefix of %d bytes decoded by %+v: side %d holds bin %d=%v that no complete block contains", cut, c, side, i, g)
+							}
+						}
+					}
+					if !obs.FEq(sk.GetZeroCount(), pc.Zero) {
+						t.Fatalf("C08: prefix of %d bytes: zero count %v, complete blocks say %v", cut, sk.GetZeroCount(), pc.Zero)
+					}
+				}
+			}
+		}
+		stats.Count("C08", "cuts", nCuts)
+		stats.Count("C08", "cuts_strictly_inside_a_block", nInside/6)
+		stats.Count("C08", "decodes", nCuts*6)
+		cl.done(long)
+	})
+}
